@@ -20,12 +20,22 @@ Correspondence (model vs implementation, per scenario):
   (d) GROUND, ESTATE (eigenvalue by state label), EALL == model's computeGroundEnergy / getEigenValue / getEigenValues;
   (e) StateBlockIndex == the model's; the label 2^N is rejected (harness h_c03 under ASan).
 
-Scenarios: the O(1) dyadic families of tools/scen.py and the tiny-amplitude families of checks/hpartlib.py (hoppings, levels, fields,
+  (f) histories on ONE object (harness h_c03 `history`; `a second call on the same object' of AGENTS_GUIDE): for every scenario and
+      every block prepare; compute; prepare; compute (and ppc, pcc, pcpcpc, pcppc) on one HamiltonianPart, and PCPC, PPC, PCC, PCPPCC on one
+      Hamiltonian; after EVERY call the object is dumped: status Prepared => matrix == the model's block exactly (on a difference:
+      oracle's HFULL restriction decides, as in (a)); status Computed => certificate of (b) for the reported (E, U) with the model's
+      H_b, eigenvalues ascending and equal (4e-12 |H|) to those of the first compute() and of the documented workflow; Hamiltonian
+      Computed => ground / look-up / concatenation as in (d).  What the code makes of a repeated call (no-op or rebuild) is not
+      prescribed; only that whatever is reported is an eigen-system of H.
+
+Scenarios: hole-type families of checks/hpartlib.py (terms that are not normal ordered, e c c^+, and constants: spectra that are entirely
+positive, entirely negative or straddle 0 -- every LatticePresets model has the vacuum at energy 0, hence ground energy <= 0), the O(1) dyadic families of tools/scen.py and the tiny-amplitude families of checks/hpartlib.py (hoppings, levels, fields,
 interactions of 2^-28 .. 2^-40 next to O(1) terms, and whole models in units of 2^-k, always with degenerate levels so that the
 tiny term matters at first order).
 """
 import json
 import re
+import concurrent.futures as cf
 import pv
 import edlib
 import hpartlib as hl
@@ -38,6 +48,8 @@ def setup():
     hl.driver()
     edlib.binaries("real")
     pv.build_harness("h_c03", "asan")
+    pv.build_harness("h_c03", "real")
+    pv.build_harness("h_c03", "complex")
 
 
 def feq(a, b):
@@ -195,6 +207,162 @@ def spec_restriction_mismatch(text, variant, blocks, hpre):
             % (b, i, j, bra, ket, want, got, count))
 
 
+def history_failures(text, variant, mode, eigs_ref=None, part_hists=None, ham_hists=None):
+    """prepare / compute called more than once on ONE HamiltonianPart per block and on ONE Hamiltonian (harness h_c03 `history`).
+    Required after every call, whatever the Status guards make of it:
+      an object that says Prepared holds the block matrix: equal, entry by entry, to the model's block (hpart_prepare; the main part of
+        the check ties that to the restriction of the full matrix); on a difference the offending matrix is compared with the oracle's
+        HFULL restriction, exactly as for a first prepare();
+      an object that says Computed reports an eigen-system of H: certificate max|H_b U - U E| <= RESID_TOL |H|, max|U^+U-1| <= UNIT_TOL
+        computed by the extracted specification with the model's H_b (driver_c03 BCERT), eigenvalues ascending and within the
+        certified accuracy of those of the first compute() and of the documented workflow's (eigs_ref);
+      a Computed Hamiltonian reports ground energy = minimum over its blocks, getEigenValue(label) = the stored value, getEigenValues()
+        = the concatenation (direct reading, and the model's MGROUND / MESTATE / MEALL on the same eigen-system).
+    Returns (failures [(kind, is_implementation, detail)], facts)."""
+    part_hists = hl.PART_HISTORIES if part_hists is None else part_hists
+    ham_hists = hl.HAM_HISTORIES if ham_hists is None else ham_hists
+    fails = []
+    hs = hl.run_histories(text, variant, part_hists, ham_hists)
+    facts = {"steps": 0, "prepared_compared": 0, "eigen_systems_certified": 0, "throws": [" ".join(t) for t in hs.throws]}
+    if hs.error:
+        return [("workflow", False, "history harness: " + hs.error)], facts
+    if hs.rc != 0 or not hs.done:
+        last = sorted(list(hs.pstep) + [(h, k, -1) for h, k in hs.hstep])[-1:] or None
+        return [("history-died", True, "harness h_c03 ended with rc=%s before the histories were through (%d part steps, %d Hamiltonian steps printed; %s)"
+                 % (hs.rc, len(hs.pstep), len(hs.hstep), (pv.sanitizer_digest(hs.err) or hs.err[-300:]).strip()))], facts
+    blocks = hs.blocks()
+    n = hs.n()
+    # eigen-systems to certify: one per (part history, step with every block Computed), one per (Hamiltonian history, step Computed)
+    jobs = []      # (level, h, k, {b: (size, U, E)})
+    for h in part_hists:
+        for k in range(len(h)):
+            st = {b: hs.pstep.get((h, k, b)) for b in blocks}
+            if all(v is not None and v[0] >= 2 for v in st.values()) and all((h, k, b) in hs.peig for b in blocks):
+                jobs.append(("part", h, k, {b: (st[b][1], st[b][2], hs.peig[(h, k, b)]) for b in blocks}))
+    for h in ham_hists:
+        for k in range(len(h)):
+            if hs.hstep.get((h, k), 0) >= 2:
+                st = {b: hs.hpart.get((h, k, b)) for b in blocks}
+                if all(v is not None and v[0] >= 2 for v in st.values()) and all((h, k, b) in hs.heig for b in blocks):
+                    jobs.append(("ham", h, k, {b: (st[b][1], st[b][2], hs.heig[(h, k, b)]) for b in blocks}))
+                else:
+                    fails.append(("history-status", True, "after %s on one Hamiltonian object the Hamiltonian says Computed but part(s) %r do not"
+                                  % (describe_history(h[:k + 1]), sorted(b for b, v in st.items() if v is None or v[0] < 2))))
+    # bit-identical eigen-systems (a repeated call that is a no-op, a repeated diagonalisation of the same matrix) are certified once
+    uniq, slot = [], {}
+    for j in jobs:
+        key = repr(sorted(j[3].items()))
+        if key not in slot:
+            slot[key] = len(uniq)
+            uniq.append(j[3])
+    rc, mh, ugroups, err = hl.model_histories(hs, mode, uniq)
+    groups = [ugroups[slot[repr(sorted(j[3].items()))]] for j in jobs] if len(ugroups) == len(uniq) else []
+    facts["distinct_eigen_systems"] = len(uniq)
+    if rc or len(groups) != len(jobs) or any(mh.get(b) is None for b in blocks):
+        return fails + [("driver", False, "history model run: rc=%s groups=%d/%d %s" % (rc, len(groups), len(jobs), err[-200:]))], facts
+    hscale = 0.0
+    for b, (sz, mv) in mh.items():
+        for i in range(sz):
+            hscale = max(hscale, sum(abs(x) for x in mv[i * sz:(i + 1) * sz]))
+    facts["hscale"] = hscale
+
+    def prepared_ok(level, h, k, b, rec):
+        """rec = (status, size, entries) of an object that says Prepared"""
+        sz, mv = mh[b]
+        facts["prepared_compared"] += 1
+        if rec[1] == sz and len(rec[2]) == len(mv) and all(feq(x, y) for x, y in zip(rec[2], mv)):
+            return
+        first = (hs.pstep if level == "part" else hs.hpart).get((h, 0, b))
+        what = spec_restriction_mismatch(text, variant, {b: blocks[b]}, {b: (rec[1], rec[2])})
+        who = "one HamiltonianPart object (block %d, %d states)" % (b, len(blocks[b])) if level == "part" else "one Hamiltonian object (block %d)" % b
+        if what and what != "unavailable":
+            fails.append(("history-hblk", True, "after %s on %s the object says Prepared but its matrix is not the Hamiltonian restricted to the block: %s%s"
+                          % (describe_history(h[:k + 1]), who, what,
+                             "" if k == 0 or first is None or first[2] != list(mv) else " (the first prepare() on the same object gave the right block)")))
+        else:
+            cell = next((c for c in range(min(len(mv), len(rec[2]))) if not feq(mv[c], rec[2][c])), -1)
+            fails.append(("history-hblk-model", False, "after %s on %s: cell %d model %r impl %r (oracle's HFULL: %s)"
+                          % (describe_history(h[:k + 1]), who, cell, mv[cell] if 0 <= cell < len(mv) else None,
+                             rec[2][cell] if 0 <= cell < len(rec[2]) else None, "equal to the implementation" if what is None else what)))
+
+    for (h, k, b), rec in sorted(hs.pstep.items()):
+        facts["steps"] += 1
+        if rec[0] == 1:
+            prepared_ok("part", h, k, b, rec)
+        elif rec[0] < 1:
+            fails.append(("history-status", True, "after %s on one HamiltonianPart object (block %d) the status is %d" % (describe_history(h[:k + 1]), b, rec[0])))
+    for (h, k), st in sorted(hs.hstep.items()):
+        facts["steps"] += 1
+        if st == 1:
+            for b in blocks:
+                rec = hs.hpart.get((h, k, b))
+                if rec is None or rec[0] != 1:
+                    fails.append(("history-status", True, "after %s on one Hamiltonian object the Hamiltonian says Prepared but part %d says %r"
+                                  % (describe_history(h[:k + 1]), b, rec and rec[0])))
+                else:
+                    prepared_ok("ham", h, k, b, rec)
+        elif st < 1:
+            fails.append(("history-status", True, "after %s the Hamiltonian's status is %d" % (describe_history(h[:k + 1]), st)))
+    # ---- eigen-systems ----
+    etol = 4 * RESID_TOL * hscale
+    first_eigs = {}
+    for (level, h, k, es), grp in zip(jobs, groups):
+        facts["eigen_systems_certified"] += 1
+        who = ("one HamiltonianPart object per block" if level == "part" else "one Hamiltonian object")
+        hist = describe_history(h[:k + 1])
+        bad = None
+        for t in grp:
+            if t[0] == "BCERT":
+                b = int(t[1])
+                if t[2] == "FAIL":
+                    fails.append(("driver", False, "history BCERT block %s: %s" % (t[1], t[3:])))
+                elif not (HX(t[3]) <= RESID_TOL * hscale and HX(t[4]) <= UNIT_TOL):
+                    e = es[b][2]
+                    ref = first_eigs.get((level, h, b))
+                    bad = bad or ("block %d (%d states, Fock states %r): max|H_b U - U E| = %.3e (allowed %.1e |H|, |H| = %g), max|U^+U-1| = %.3e; "
+                                  "reported eigenvalues %r%s" % (b, len(blocks[b]), blocks[b][:6], HX(t[3]), RESID_TOL, hscale, HX(t[4]), e[:6],
+                                                                  (", after the first compute() on the same object %r" % ref[:6]) if ref else ""))
+        if bad:
+            fails.append(("history-cert", True, "after %s on %s the reported eigen-system is not an eigen-system of H: %s" % (hist, who, bad)))
+        for b in sorted(es):
+            e = es[b][2]
+            if any(e[i] > e[i + 1] for i in range(len(e) - 1)):
+                fails.append(("history-eig-order", True, "after %s on %s: block %d eigenvalues not ascending: %r" % (hist, who, b, e)))
+            ref = first_eigs.setdefault((level, h, b), e)
+            for name, other in (("the first compute() on the same object", ref), ("the documented workflow (one prepare, one compute)", (eigs_ref or {}).get(b))):
+                if other is not None and not bad and (len(other) != len(e) or any(abs(x - y) > etol for x, y in zip(e, other))):
+                    fails.append(("history-eig", True, "after %s on %s: block %d eigenvalues %r, after %s %r" % (hist, who, b, e[:6], name, other[:6])))
+                    break
+        if level == "ham":
+            pos = {}
+            for b, sts in blocks.items():
+                for i, s_ in enumerate(sts):
+                    pos[s_] = (b, i)
+            d_ground = min(x for b in es for x in es[b][2])
+            d_estate = [es[pos[q][0]][2][pos[q][1]] for q in range(1 << n)]
+            d_eall = [x for b in sorted(es) for x in es[b][2]]
+            g, est, eal = hs.hground.get((h, k)), hs.hestate.get((h, k)), hs.heall.get((h, k))
+            if g is None or not feq(g, d_ground):
+                fails.append(("history-ground", True, "after %s on %s: getGroundEnergy() = %r, minimum over all blocks = %r" % (hist, who, g, d_ground)))
+            if est != d_estate:
+                q = next((q for q in range(len(d_estate)) if est is None or q >= len(est) or est[q] != d_estate[q]), 0)
+                fails.append(("history-estate", True, "after %s on %s: getEigenValue(label %d) = %r, stored for its block %d position %d: %r"
+                              % (hist, who, q, est[q] if est and q < len(est) else None, pos[q][0], pos[q][1], d_estate[q])))
+            if eal != d_eall:
+                fails.append(("history-eall", True, "after %s on %s: getEigenValues() = %r, concatenation in block order = %r" % (hist, who, eal, d_eall)))
+            mg = [t for t in grp if t[0] == "MGROUND"][0]
+            mea = [t for t in grp if t[0] == "MEALL"][0][1:]
+            mes = [t for t in grp if t[0] == "MESTATE"][0][1:]
+            if mg[1] == "FAIL" or HX(mg[1]) != d_ground or [None if x.startswith("FAIL") else HX(x) for x in mes] != d_estate or (mea and mea[0] == "FAIL") or [HX(x) for x in mea] != d_eall:
+                fails.append(("energies-model", False, "history %s: model's ground / look-up / concatenation differ from the direct reading" % h[:k + 1]))
+    return fails, facts
+
+
+def describe_history(h):
+    names = {"p": "prepare()", "c": "compute()", "P": "Hamiltonian::prepare()", "C": "Hamiltonian::compute()"}
+    return "; ".join(names[x] for x in h)
+
+
 def numpy_sanity(text, variant):
     """TESTING layer, not part of the decision: eigenvalues of the full-space matrix (oracle's HFULL) by numpy.linalg.eigvalsh
     (python3-vt) against the sorted concatenation of the reported block eigenvalues. Returns max deviation or None."""
@@ -252,6 +420,16 @@ def probe_label_bound(chk):
     return mode
 
 
+def failures_of(text, variant, mode, fk):
+    """the failures of one scenario that can be of kind fk (histories on one object are a run of their own)"""
+    if fk.startswith("history-"):
+        r0 = edlib.run(text, [], variant=variant, stage="diag", oracle=False)
+        if r0.error or r0.crash or not r0.dumprec("VEC"):
+            return []
+        return history_failures(text, variant, mode, eigs_ref=r0.eigs())[0]
+    return analyse(text, variant, mode)[1]
+
+
 def report(chk, family, kind, variant, text, mode, fails):
     for fk, is_impl, detail in fails:
         if fk in ("workflow", "driver"):
@@ -264,8 +442,8 @@ def report(chk, family, kind, variant, text, mode, fails):
         cnt[fk + "|" + variant] = cnt.get(fk + "|" + variant, 0) + 1
         if cnt[fk + "|" + variant] > 2:
             continue                      # two shrunk instances per kind and build are reported; the count stays in the evidence
-        small = hl.shrink(text, lambda cand: any(f[0] == fk for f in analyse(cand, variant, mode)[1]))
-        _, f2, _ = analyse(small, variant, mode)
+        small = hl.shrink(text, lambda cand: any(f[0] == fk for f in failures_of(cand, variant, mode, fk)))
+        f2 = failures_of(small, variant, mode, fk)
         d2 = next((f[2] for f in f2 if f[0] == fk), detail)
         rep = {"check": "C03", "kind": fk, "variant": variant, "scenario": small, "original": text, "detail": d2, "mode": mode}
         if is_impl:
@@ -327,7 +505,12 @@ def run(chk):
     chk.assume += ["amplitudes are dyadic rationals, so the block matrices are exact in binary64 and HBLK is compared for equality",
                    "the partition dumped by StatesClassification is taken as given (its soundness is C07); hpart_prepare_is_restriction assumes the Hamiltonian respects it, "
                    "the certificate on the full space does not",
-                   "theorems are about exact arithmetic; rounding inside the solver is covered by the certificate only"]
+                   "theorems are about exact arithmetic; rounding inside the solver is covered by the certificate only",
+                   "objects that are prepared / computed more than once: the model of HamiltonianPart::prepare has no memory (hpart_prepare builds the block "
+                   "from the zero matrix), i.e. prepare() on an object in ANY state is specified to give the block matrix -- which is what the code does "
+                   "(H.resize; H.setZero at the top of prepare); the histories (p = prepare, c = compute on one HamiltonianPart per block: "
+                   + ", ".join(hl.PART_HISTORIES) + "; P, C on one Hamiltonian: " + ", ".join(hl.HAM_HISTORIES) + ") require after every call: a Prepared object "
+                   "holds the model's block exactly, a Computed object an eigen-system of H (same certificate)"]
     mode = probe_label_bound(chk)
     chk.extra["label_test_mode"] = mode
     # the fragments of translator/gen_ham.py this property rests on: one that left the recognised shape is replaced by its
@@ -340,26 +523,39 @@ def run(chk):
             chk.notes.append("translator: %s is %s -- Properties_C03_source.v is about the snapshot for this function; tied by the runs only" % (frag, st))
             chk.extra.setdefault("fragments_not_translated", []).append({"fragment": frag, "why": st})
     # (build, complex amplitudes, tiny-amplitude families, number of scenarios)
-    plan = [("real", False, False, 42 if quick else 160), ("real", False, True, 14 if quick else 56)]
+    # (build, complex amplitudes, generator: O(1) families | tiny-amplitude families | hole-type terms and constants, number of scenarios)
+    plan = [("real", False, "o1", 42 if quick else 160), ("real", False, "tiny", 14 if quick else 56), ("real", False, "holes", 15 if quick else 60)]
     if not quick:
-        plan.append(("complex", True, False, 100))
-        plan.append(("complex", False, False, 30))
-        plan.append(("complex", True, True, 28))
+        plan.append(("complex", True, "o1", 100))
+        plan.append(("complex", False, "o1", 30))
+        plan.append(("complex", True, "tiny", 28))
+        plan.append(("complex", True, "holes", 25))
     else:
-        plan.append(("complex", True, False, 6))       # a few complex-Hermitian cases also in the quick tier (the variant is built once)
-        plan.append(("complex", True, True, 4))
+        plan.append(("complex", True, "o1", 6))       # a few complex-Hermitian cases also in the quick tier (the variant is built once)
+        plan.append(("complex", True, "tiny", 4))
+        plan.append(("complex", True, "holes", 5))
     certs = []
     rel_certs = []
     sanity = []
-    for variant, cplx, tiny, count in plan:
+    hist_facts = {"scenarios": 0, "steps": 0, "prepared_compared": 0, "eigen_systems_certified": 0, "throws": []}
+    spectra = {}
+    for variant, cplx, which, count in plan:
         edlib.binaries(variant)
-        gen = hl.gen_tiny_cases if tiny else hl.gen_cases
-        for family, kind, text, nm in gen(chk.rng, count, variant, complex_amplitudes=cplx):
+        pv.build_harness("h_c03", variant)
+        gen = {"o1": hl.gen_cases, "tiny": hl.gen_tiny_cases, "holes": hl.gen_hole_cases}[which]
+        cases = gen(chk.rng, count, variant, complex_amplitudes=cplx)
+        # every scenario twice: through the documented workflow (analyse) and with prepare / compute called more than once on one
+        # object (history_failures; independent harness runs, started ahead in a small pool)
+        pool = cf.ThreadPoolExecutor(max_workers=min(6, pv.NPROC))
+        futs = [pool.submit(history_failures, text, variant, mode) for _, _, text, _ in cases]
+        for (family, kind, text, nm), fut in zip(cases, futs):
             r, fails, facts = analyse(text, variant, mode)
             if any(f[0] == "workflow" for f in fails):
                 report(chk, family, kind, variant, text, mode, fails)
                 continue
-            sig = hl.signature(r, family + ("-cplx" if cplx else ""), kind, variant)
+            sclass = hl.spectrum_class(r.eigs())
+            spectra[sclass] = spectra.get(sclass, 0) + 1
+            sig = hl.signature(r, family + ("-cplx" if cplx else ""), kind, variant) + "|" + sclass
             chk.case(variant + "|" + hl.canon(text), sig, nontrivial=max(len(v) for v in r.blocks().values()) > 1,
                      sample={"scenario": hl.canon(text), "variant": variant, "blocks": sorted(len(v) for v in r.blocks().values()),
                              "cert": facts.get("cert"), "signature": sig} if len(chk.samples) < 6 and chk.evaluations % 7 == 0 else None)
@@ -374,8 +570,23 @@ def run(chk):
             want = "FAIL OOB" if mode == "unfixed" else "FAIL Throws2"
             if facts.get("melabel") and facts["melabel"] != want:
                 chk.tie_broken("label bound model", "model getEigenValue(2^N) = %s in mode %s" % (facts["melabel"], mode))
+            hfails, hfacts = fut.result()
+            if any(f[0] == "workflow" for f in hfails):
+                chk.tie_broken("h_c03 history", "%s [scenario (%s): %s]" % (hfails[0][2], variant, hl.canon(text)))
+                hfails = []
+            hist_facts["scenarios"] += 1
+            for k_ in ("steps", "prepared_compared", "eigen_systems_certified"):
+                hist_facts[k_] += hfacts.get(k_, 0)
+            hist_facts["throws"] = (hist_facts["throws"] + hfacts.get("throws", []))[:10]
+            fails = fails + hfails
             if fails:
                 report(chk, family, kind, variant, text, mode, fails)
+        pool.shutdown()
+    chk.extra["histories_on_one_object"] = dict(hist_facts, part_histories=hl.PART_HISTORIES, hamiltonian_histories=hl.HAM_HISTORIES,
+                                                what_the_code_does="Hamiltonian::prepare / compute return at once when the status is already reached "
+                                                "(a second call is a no-op); HamiltonianPart::prepare rebuilds the block from scratch on every call, "
+                                                "HamiltonianPart::compute returns at once on a Computed part")
+    chk.extra["spectrum_classes"] = spectra
     chk.extra["numpy_sanity_TESTING_ONLY"] = {"scenarios": len(sanity), "max_deviation_of_sorted_spectra": max(sanity) if sanity else None,
                                               "note": "numpy.linalg.eigvalsh of the full-space matrix vs reported eigenvalues; additional testing layer, never decides"}
     if certs:
@@ -384,7 +595,11 @@ def run(chk):
     distributed_slice(chk, quick)
     chk.rule = ("scenario = model family (Hubbard atom, two-site incl. spin-flip, Anderson, free degenerate, atomic limit, Kanamori, exchange, pairing, spinless 3-orbital; "
                 "tiny-amplitude families: weak link between identical atoms, whole model in units of 2^-k, free degenerate chain, spin-flip hopping, field / level shift, "
-                "interaction, Hund coupling, each of magnitude 2^-28 .. 2^-40 next to O(1) terms or alone, degenerate levels) "
+                "interaction, Hund coupling, each of magnitude 2^-28 .. 2^-40 next to O(1) terms or alone, degenerate levels; "
+                "hole-type families (not normal ordered: e c c^+ + f c^+ c on every mode with all-positive / all-negative / mixed parameters, hole terms only, "
+                "any O(1) family plus a constant +-4..16), so that the spectrum is entirely positive, entirely negative or straddles 0 -- the class is part of the signature) "
+                "x histories (every scenario once through the documented workflow and once with prepare / compute called repeatedly on one HamiltonianPart per block "
+                "and on one Hamiltonian) "
                 "x partition (default analysis, symmetries ignored, custom integrals of motion: N, S_z, N and S_z, per-site charges) x build (real; complex with complex hoppings); "
                 "distinct = distinct canonical scenario text; non-trivial = at least one block larger than 1x1; the signature names family, partition and number of accepted "
                 "symmetries, block shapes present, degenerate spectrum or not, build")
@@ -400,6 +615,8 @@ def replay(chk, path):
     if isinstance(rep, dict) and "scenario" in rep:
         mode = rep.get("mode", "unfixed")
         r, fails, facts = analyse(rep["scenario"], rep.get("variant", "real"), mode)
+        if str(rep.get("kind", "")).startswith("history-") and not any(f[0] == "workflow" for f in fails):
+            fails = fails + history_failures(rep["scenario"], rep.get("variant", "real"), mode, eigs_ref=r.eigs())[0]
         print("failures now:", fails)
         for fk, is_impl, detail in fails:
             if is_impl:
